@@ -104,6 +104,11 @@ def call(l, a):
         return l[slice(u(a["lo"]), u(a["hi"]), a["step"])]
     if op == "copy":
         return l.copy()
+    if op == "map_item":
+        return l.map(lambda x: x)
+    if op == "map_key":
+        k = a["k"]
+        return l.map(lambda x: x.get(k))
     raise ValueError(op)
 
 
@@ -129,6 +134,11 @@ def execute(lst, a):
         import io, contextlib
         with contextlib.redirect_stdout(io.StringIO()):
             out = call(lst, a)
+        if a["op"] == "map_key":
+            # documented: a plain list of whatever the function returns (an empty result cannot tell: free)
+            rec["cls"] = type(out) is list or len(out) == 0
+            rec["out"] = [to_abs({"v": x}) for x in out]
+            return rec, None
         rec["cls"] = observe_cls(out)
         rec["out"] = [to_abs(x) for x in out]
     except Exception as e:
@@ -209,8 +219,14 @@ def run(ctx):
                     break
                 cur = out
     bad = ctx.validate("LoDOpsTrace", records)
+    outside = {}
     for i, clause in bad:
+        if clause.startswith("map_"):
+            outside.setdefault(clause, records[i])      # map is specified (LoDOps) but not named by the property: a NOTE
+            continue
         ctx.fail(clause, sig_of(records[i]), {"rec": records[i]})
+    for clause, rec in sorted(outside.items()):
+        ctx.notes.append("outside-listed-properties LoDOps %s example=%s" % (clause, {k: rec[k] for k in ("l", "a", "out", "err")}))
     histories(ctx, 700 if quick else 10000)
     for i in range(0, len(records), max(1, len(records) // 6)):
         ctx.sample(records[i])
